@@ -4,7 +4,8 @@ from __future__ import annotations
 import ast
 
 from ..core import Ctx
-from ..match import arg, call_name, calls, facts_at, local_defs, mentions, resolve, single_def, stores
+from ..match import (_atoms_with_polarity, arg, call_name, calls, expr_context_facts, fact_of, facts_at, local_defs, mentions, rchain, resolve,
+                     same_resolved, stores)
 from ..model import AnalysisError, FuncInfo, ancestors, chain, const_value, enclosing_stmt, norm, parent, strip_cast, walk_no_nested
 
 LEVEL = "other"
@@ -14,9 +15,13 @@ EXPLANATION = (
     "(verified_by_public_key_bin, reverse_ip_lookup, reverse_intro_lookup, reverse_service_lookup). A cell is satisfied "
     "when the mutator updates the index on the same path (directly or through a helper it calls) or when every reader "
     "of the index re-validates its cached value against the authoritative collection; cached lists must never be "
-    "created from partial knowledge; every cache miss recomputes from the authoritative collection. Plus blacklist "
-    "guards, by-key pairing, snapshot codec symmetry and the closed set of external writers. LRU eviction order is not "
-    "explored - a miss recomputes (checked)."
+    "created from partial knowledge; every cache miss recomputes from the authoritative collection. Reader validation is "
+    "decided by value flow, not by spelling: a value taken out of a cache may only reach a `return` through edges / filters "
+    "that establish the required facts (peer in verified_peers and key in peer.addresses.values(); address in _all_addresses "
+    "and introduced_by == the peer's key; peer in verified_peers and service in services_per_peer[peer key]). Plus blacklist "
+    "guards (followed into private helpers of add_verified_peer), by-key pairing, removal completeness (remove_by_address "
+    "looks at every verified peer on every path; remove_peer removes unless not a member), snapshot codec symmetry and the "
+    "closed set of external writers. LRU eviction order is not explored - a miss recomputes (checked)."
 )
 
 NW = "ipv8/peerdiscovery/network.py"
@@ -49,6 +54,110 @@ DEPENDS = {
 }
 
 
+_QUERIES = ("get_verified_by_address", "get_introductions_from", "get_peers_for_service", "get_verified_by_public_key_bin",
+            "get_services_for_peer", "get_walkable_addresses", "snapshot", "is_new_style")
+_MUTATING = ("add", "update", "discard", "remove", "pop", "clear", "append", "extend", "insert", "setdefault", "popitem", "difference_update",
+             "intersection_update", "symmetric_difference_update", "sort", "reverse")
+_FRESH_CALLS = ("set", "frozenset", "list", "tuple", "dict", "sorted", "copy", "copy.copy", "copy.deepcopy", "deepcopy", "len", "bool", "any", "all")
+_FRESH_METHODS = ("copy", "union", "difference", "intersection", "symmetric_difference", "keys", "values", "items")
+
+
+def _fresh(fi: FuncInfo, v: ast.AST, depth: int = 3) -> bool:
+    """the value of v is a new object (or immutable): mutating it cannot change a stored collection"""
+    v = strip_cast(v)
+    if isinstance(v, (ast.ListComp, ast.SetComp, ast.DictComp, ast.GeneratorExp, ast.List, ast.Set, ast.Dict, ast.Tuple, ast.BinOp, ast.Constant,
+                      ast.Compare, ast.JoinedStr, ast.UnaryOp)):
+        return True
+    if isinstance(v, ast.Call):
+        if (chain(v.func) or "") in _FRESH_CALLS:
+            return True
+        return isinstance(v.func, ast.Attribute) and v.func.attr in _FRESH_METHODS
+    if isinstance(v, ast.IfExp):
+        return _fresh(fi, v.body, depth) and _fresh(fi, v.orelse, depth)
+    if isinstance(v, ast.BoolOp):
+        return all(_fresh(fi, x, depth) for x in v.values)
+    if isinstance(v, ast.Name) and depth > 0 and v.id not in fi.params():
+        defs = local_defs(fi, v.id)
+        return bool(defs) and all(val is not None and idx is None and _fresh(fi, val, depth - 1) for _, val, idx in defs)
+    return False
+
+
+def _stored_alias(fi: FuncInfo, name: str, depth: int = 3):
+    """a definition of local `name` that makes it the very object held in an authoritative collection (or the collection itself)"""
+    for st, v, idx in local_defs(fi, name):
+        src = v
+        if v is None and isinstance(st, (ast.For, ast.AsyncFor)):
+            src = st.iter          # the elements of a stored collection are stored objects
+            if isinstance(strip_cast(src), ast.Call) and isinstance(strip_cast(src).func, ast.Attribute) and strip_cast(src).func.attr in ("values", "items"):
+                src = strip_cast(src).func.value
+            elif _fresh(fi, src):
+                continue
+        elif v is None or _fresh(fi, v):
+            continue
+        if any(mentions(src, f"self.{a}") for a in AUTH):
+            return src
+        if depth > 0:       # services = stored if stored else set()  with  stored = self.services_per_peer.get(..)
+            for p_ in _value_positions(src):
+                if isinstance(p_, ast.Name) and p_.id != name and p_.id not in fi.params():
+                    r = _stored_alias(fi, p_.id, depth - 1)
+                    if r is not None:
+                        return r
+    return None
+
+
+def _reaching_defs(ctx: Ctx, fi: FuncInfo, name: str, site: ast.AST):
+    """definitions (stmt, value, tuple index) of local `name` that can reach `site` without being overwritten on the way"""
+    cfg = ctx.cfg(fi)
+    defs = local_defs(fi, name)
+    at = cfg.nodes_for(site)
+    out = []
+    for st, v, idx in defs:
+        mine = cfg.nodes_for(st)
+        others = [n for st2, _v, _i in defs if st2 is not st and not isinstance(st2, ast.AugAssign) for n in cfg.nodes_for(st2)]
+        r = cfg.reach([x for n in mine for x, lab in n.succ if lab != "exc"], cut_nodes=[n for n in others if n not in mine])
+        if any(n in r for n in at):
+            out.append((st, v, idx))
+    return out
+
+
+def _entry_of_index(fi: FuncInfo, recv: ast.AST, index: str, ctx: Ctx | None = None) -> bool:
+    """recv is an entry stored in self.<index>: self.<index>.get(k) / self.<index>[k] itself, or a local bound to such an expression"""
+    recv = strip_cast(recv)
+    if isinstance(recv, ast.Name):
+        defs = _reaching_defs(ctx, fi, recv.id, recv) if ctx is not None else local_defs(fi, recv.id)
+        return any(v is not None and mentions(v, f"self.{index}") and not _fresh(fi, v) for _, v, _i in defs)
+    if chain(recv) == f"self.{index}":
+        return False
+    return mentions(recv, f"self.{index}") and not _fresh(fi, recv)
+
+
+def _alias_mutations(fi: FuncInfo):
+    """(node, local, source) for mutations applied to a local that aliases an authoritative collection / one of its stored values."""
+    out = []
+    for n in walk_no_nested(fi.node):
+        var = None
+        if isinstance(n, ast.Call) and isinstance(n.func, ast.Attribute) and n.func.attr in _MUTATING and not isinstance(n.func.value, ast.Name):
+            # self.services_per_peer.get(k, set()).add(x): the stored value itself, without a local in between
+            recv = strip_cast(n.func.value)
+            if chain(recv) not in [f"self.{a}" for a in AUTH] and any(mentions(recv, f"self.{a}") for a in AUTH) and not _fresh(fi, recv):
+                out.append((n, norm(recv)[:40], recv))
+            continue
+        if isinstance(n, ast.Call) and isinstance(n.func, ast.Attribute) and n.func.attr in _MUTATING and isinstance(n.func.value, ast.Name):
+            var = n.func.value.id
+        elif isinstance(n, ast.AugAssign) and isinstance(n.target, ast.Name):
+            var = n.target.id
+        elif isinstance(n, (ast.Assign, ast.Delete)):
+            for t in n.targets:
+                if isinstance(t, ast.Subscript) and isinstance(t.value, ast.Name):
+                    var = t.value.id
+        if var is None or var in fi.params():
+            continue
+        src = _stored_alias(fi, var)
+        if src is not None:
+            out.append((n, var, src))
+    return out
+
+
 def mutation_sites(ctx: Ctx):
     """(function, collection, kind, node) for every mutation of an authoritative collection in network.py."""
     net = ctx.repo.cls("Network", NW)
@@ -72,9 +181,9 @@ def mutation_sites(ctx: Ctx):
                             out.append((fi, a, "remove", n))      # rebinding: may drop members
                         if chain(t) == f"self.{a}[]":
                             if a == "_all_addresses" and isinstance(n, ast.Assign):
-                                v = strip_cast(n.value)
-                                # WalkableAddress(b"", None, False) names no introducer: irrelevant for the intro cache
-                                neutral = isinstance(v, ast.Call) and chain(v.func) == "WalkableAddress" and v.args and const_value(v.args[0]) == b""
+                                # WalkableAddress(b"", ...) names no introducer: irrelevant for the intro cache
+                                wa = _wa_args(fi, n.value)
+                                neutral = wa is not None and wa[0] is not None and const_value(resolve(fi, wa[0])) == b""
                                 out.append((fi, a, "add-neutral" if neutral else "add", n))
                             else:
                                 out.append((fi, a, "add", n))
@@ -92,14 +201,14 @@ def _updates_index(ctx: Ctx, fi: FuncInfo, index: str, depth: int = 2) -> bool:
         if isinstance(n, ast.Call) and isinstance(n.func, ast.Attribute) and chain(n.func.value) == f"self.{index}" \
                 and n.func.attr in ("pop", "clear", "popitem", "remove", "append", "update", "__setitem__"):
             return True
-        if isinstance(n, (ast.Assign, ast.AugAssign)):
-            for t in (n.targets if isinstance(n, ast.Assign) else [n.target]):
+        if isinstance(n, (ast.Assign, ast.AugAssign, ast.Delete)):
+            for t in (n.targets if isinstance(n, (ast.Assign, ast.Delete)) else [n.target]):
                 if chain(t) in (f"self.{index}[]", f"self.{index}"):
                     return True
-        if isinstance(n, ast.Call) and isinstance(n.func, ast.Attribute) and n.func.attr in ("append", "remove") and isinstance(n.func.value, ast.Name):
-            d = single_def(fi, n.func.value.id)
-            if d is not None and mentions(d[0], f"self.{index}"):
-                return True
+        if isinstance(n, ast.Call) and isinstance(n.func, ast.Attribute) and n.func.attr in ("append", "remove", "extend", "insert", "add", "discard", "pop", "clear") \
+                and _entry_of_index(fi, n.func.value, index, ctx):
+            # a cached list reached through a local / an expression: cache = self.<index>.get(k); cache.append(x)
+            return True
     if depth > 0 and fi.cls is not None:
         for c in calls(fi):
             ch = chain(c.func) or ""
@@ -110,72 +219,479 @@ def _updates_index(ctx: Ctx, fi: FuncInfo, index: str, depth: int = 2) -> bool:
     return False
 
 
+# ------------------------------------------------------------------------------------------------------------------
+# semantic helpers (alias resolution over ALL reaching definitions, fresh-copy recognition, iteration contexts)
+
+_WRAPPERS = ("set", "list", "tuple", "frozenset", "sorted")
+
+
+def _unwrap(e: ast.AST) -> ast.AST:
+    """set(x) / list(x) / tuple(x) / frozenset(x) / sorted(x) / cast(T, x) -> x: same members."""
+    e = strip_cast(e)
+    while isinstance(e, ast.Call) and isinstance(e.func, ast.Name) and e.func.id in _WRAPPERS and len(e.args) == 1 and not e.keywords:
+        e = strip_cast(e.args[0])
+    return e
+
+
+def _resolves_to(fi: FuncInfo, expr: ast.AST, pred, depth: int = 4) -> bool:
+    """pred holds for expr, or expr is a local all of whose definitions (recursively) satisfy pred."""
+    if expr is None:
+        return False
+    expr = strip_cast(expr)
+    try:
+        if pred(expr):
+            return True
+    except Exception:  # noqa: BLE001
+        pass
+    if depth > 0 and isinstance(expr, ast.Name) and expr.id not in fi.params():
+        defs = local_defs(fi, expr.id)
+        if defs and all(v is not None and idx is None for _, v, idx in defs):
+            return all(_resolves_to(fi, v, pred, depth - 1) for _, v, idx in defs)
+    return False
+
+
+def _is_name(e: ast.AST, names) -> bool:
+    e = strip_cast(e)
+    return isinstance(e, ast.Name) and (e.id == names if isinstance(names, str) else e.id in names)
+
+
+def _key_of(raw: ast.AST) -> ast.AST | None:
+    if isinstance(raw, ast.Call):
+        return arg(raw, 0, "key")
+    if isinstance(raw, ast.Subscript):
+        return raw.slice
+    return None
+
+
+def _key_bin_of(fi: FuncInfo, e: ast.AST, who: str) -> bool:
+    """e evaluates <who>.public_key.key_to_bin()"""
+    return _resolves_to(fi, e, lambda x: chain(x) == f"{who}.public_key.key_to_bin()")
+
+
+def _raw_reads(fi: FuncInfo, index: str, helpers=()) -> list[ast.AST]:
+    """Expressions that take a cached value out of self.<index> (directly, or through a private helper that hands the entry out unvalidated)."""
+    out = []
+    for n in walk_no_nested(fi.node):
+        if isinstance(n, ast.Call) and any(chain(n.func) == f"self.{h}" for h in helpers):
+            out.append(n)
+        elif isinstance(n, ast.Call) and isinstance(n.func, ast.Attribute) and chain(n.func.value) == f"self.{index}" \
+                and n.func.attr in ("get", "pop", "setdefault", "values", "items"):
+            out.append(n)
+        elif isinstance(n, ast.Subscript) and isinstance(n.ctx, ast.Load) and chain(n.value) == f"self.{index}":
+            out.append(n)
+    return out
+
+
+def _value_positions(e: ast.AST) -> list[ast.AST]:
+    """Sub-expressions whose value can be the value of e (through casts, conditional expressions, and/or)."""
+    e = strip_cast(e)
+    if isinstance(e, ast.IfExp):
+        return _value_positions(e.body) + _value_positions(e.orelse)
+    if isinstance(e, ast.BoolOp):
+        return [p for v in e.values for p in _value_positions(v)]
+    if isinstance(e, ast.NamedExpr):
+        return _value_positions(e.value)
+    return [e]
+
+
+class _ReaderFlow:
+    """
+    Where does a value taken out of a cache (self.<index>) flow to inside one function, and is it re-validated against the
+    authoritative collections before it is returned?
+
+      kind "elem": the cached value is one member (reverse_ip_lookup: address -> Peer).  Every path from the cache read to a
+                   `return <that value>` must pass, for each required fact, an edge that establishes it (or establishes that
+                   the value is None / falsy, i.e. a miss), unless the variable is re-assigned from a clean source first.
+      kind "list": the cached value is a list of members.  A list built from it is clean iff it is a filter (comprehension
+                   with conditions, or a loop that appends the loop variable under dominating facts) whose conditions imply
+                   the required facts for every kept element; anything else built from it (list(x), x[:], unfiltered
+                   comprehension, ...) is as stale as the cache entry.  No path may return a stale list (None / empty is a miss).
+    No statement positions are used: only definitions, dominating facts and CFG reachability.
+    """
+
+    def __init__(self, ctx: Ctx, fi: FuncInfo, index: str, kind: str, required, helpers=()) -> None:
+        self.ctx, self.fi, self.index, self.kind, self.required = ctx, fi, index, kind, required
+        self.raws = _raw_reads(fi, index, helpers)
+        self.raw_ids = {id(r) for r in self.raws}
+        self.keys = [k for k in (_key_of(r) for r in self.raws) if k is not None]
+        self.tainted: set[str] = set()
+        self.events: dict[str, list[tuple[ast.stmt, str]]] = {}
+        self.problems: list[str] = []
+        self.validated: list[str] = []
+        self.why: dict[int, str] = {}
+        self.loop_events: list[tuple[str, ast.stmt, str]] = []
+        self.cfg = ctx.cfg(fi) if self.raws else None
+
+    # -- taint of expressions
+    def _mentions(self, e: ast.AST) -> bool:
+        return any(id(n) in self.raw_ids or (isinstance(n, ast.Name) and n.id in self.tainted) for n in ast.walk(e))
+
+    def _carries(self, e: ast.AST) -> bool:
+        """Can the value of e be (kind elem) / contain members of (kind list) the cached value?"""
+        if e is None:
+            return False
+        if self.kind == "elem":
+            return any(id(p) in self.raw_ids or (isinstance(p, ast.Name) and p.id in self.tainted) for p in _value_positions(e))
+        e = strip_cast(e)
+        if isinstance(e, ast.Compare) or (isinstance(e, ast.Call) and chain(e.func) in ("len", "bool", "any", "all", "isinstance")):
+            return False
+        if not self._mentions(e):
+            return False
+        return not self._clean_filter(e)
+
+    def _clean_filter(self, value: ast.AST) -> bool:
+        v = _unwrap(value)
+        if not isinstance(v, (ast.ListComp, ast.SetComp, ast.GeneratorExp)):
+            return False
+        if self._mentions(v.elt) and not any(isinstance(g.target, ast.Name) and _is_name(v.elt, g.target.id) for g in v.generators):
+            return False
+        ok = False
+        for i, g in enumerate(v.generators):
+            if not self._mentions(g.iter):
+                continue
+            if not isinstance(g.target, ast.Name):
+                return False
+            facts = [f for g2 in v.generators[i:] for c in g2.ifs for f in _atoms_with_polarity(c, True)]
+            missing = self.required(self, g.target.id, facts)
+            if missing:
+                self.why[id(value)] = "keeps cached members without checking " + " and ".join(missing)
+                return False
+            self.validated.append(f"comprehension over the cached list filtered by {'; '.join(str(f) for f in facts)}")
+            ok = True
+        return ok
+
+    # -- fixpoint over local names
+    def run(self) -> "_ReaderFlow":
+        if not self.raws:
+            return self
+        fi = self.fi
+        names = {n.id for n in walk_no_nested(fi.node) if isinstance(n, ast.Name) and isinstance(n.ctx, ast.Store)}
+        changed = True
+        rounds = 0
+        while changed and rounds < 10:
+            changed = False
+            rounds += 1
+            self.problems, self.validated, self.loop_events = [], [], []
+            events: dict[str, list[tuple[ast.stmt, str]]] = {}
+            for name in sorted(names):
+                for st, v, idx in local_defs(fi, name):
+                    if v is not None and not isinstance(st, (ast.For, ast.AsyncFor)) and self._carries(v):
+                        events.setdefault(name, []).append((st, f"`{norm(st)[:80]}`" + (" " + self.why[id(v)] if id(v) in self.why else "")))
+            if self.kind == "list":
+                self._loops(events)
+            for name in events:
+                if name not in self.tainted:
+                    self.tainted.add(name)
+                    changed = True
+            self.events = events
+        self._returns()
+        return self
+
+    def _loops(self, events) -> None:
+        fi, cfg = self.fi, self.cfg
+        validated_calls = set()
+        for loop in [n for n in walk_no_nested(fi.node) if isinstance(n, (ast.For, ast.AsyncFor)) and self._mentions(n.iter)]:
+            if not isinstance(loop.target, ast.Name):
+                raise AnalysisError(f"undecided: {fi.qualname} iterates over a cached {self.index} entry with a structured loop target "
+                                    f"(`{norm(loop.target)}`)")
+            e = loop.target.id
+            for n in [x for s in loop.body for x in walk_no_nested(s)]:
+                sink, what = None, None
+                if isinstance(n, ast.Call) and isinstance(n.func, ast.Attribute) and n.func.attr in ("append", "add", "extend", "insert", "update") \
+                        and isinstance(n.func.value, ast.Name) and any(_is_name(x, e) for a in n.args for x in ast.walk(a)):
+                    sink, what = n.func.value.id, n
+                elif isinstance(n, ast.AugAssign) and isinstance(n.target, ast.Name) and any(_is_name(x, e) for x in ast.walk(n.value)):
+                    sink, what = n.target.id, n
+                elif isinstance(n, (ast.Return, ast.Yield)) and n.value is not None and any(_is_name(p, e) for p in _value_positions(n.value)):
+                    sink, what = "<result>", n
+                if sink is None:
+                    continue
+                facts = facts_at(cfg, what)
+                missing = self.required(self, e, facts)
+                validated_calls.add(id(what))
+                if missing:
+                    msg = f"`{norm(what)[:80]}` keeps a cached member without checking " + " and ".join(missing)
+                    if sink == "<result>":
+                        self.problems.append(msg)
+                    else:
+                        events.setdefault(sink, []).append((enclosing_stmt(what), msg))
+                        self.loop_events.append((sink, enclosing_stmt(what), msg))
+                else:
+                    self.validated.append(f"loop over the cached list keeps `{e}` only under {'; '.join(str(f) for f in facts)}")
+        # the cached list handed to another container wholesale: X.extend(cache) / X.append(cache[i]) / X += cache
+        for n in walk_no_nested(fi.node):
+            if id(n) in validated_calls:
+                continue
+            if isinstance(n, ast.Call) and isinstance(n.func, ast.Attribute) and n.func.attr in ("append", "add", "extend", "insert", "update") \
+                    and isinstance(n.func.value, ast.Name) and any(self._carries(a) for a in n.args):
+                events.setdefault(n.func.value.id, []).append((enclosing_stmt(n), f"`{norm(n)[:80]}`"))
+            elif isinstance(n, ast.AugAssign) and isinstance(n.target, ast.Name) and self._carries(n.value):
+                events.setdefault(n.target.id, []).append((n, f"`{norm(n)[:80]}`"))
+
+    # -- returns
+    def _miss_fact(self, f, holders) -> bool:
+        """the value is None / falsy on this edge: nothing cached is returned"""
+        if f.op == "is" and f.pos and _is_name(f.left, holders) and const_value(f.right) is None:
+            return True
+        if f.op == "truthy" and not f.pos and _is_name(f.left, holders):
+            return True
+        return False
+
+    def _carried_by(self, e: ast.AST, holders, pred=None) -> bool:
+        """the value of e is (elem) / contains members of (list) what the locals in `holders` hold or what a cache read yields"""
+        if e is None:
+            return False
+        if self.kind == "elem":
+            for p in _value_positions(e):
+                if id(p) in self.raw_ids or _is_name(p, holders):
+                    # `hit if hit in self.verified_peers and ... else None`: the position is only evaluated under these facts
+                    if not any(self._miss_fact(f, holders) or (pred is not None and pred(f, holders)) for f in expr_context_facts(p)):
+                        return True
+            return False
+        e = strip_cast(e)
+        if isinstance(e, ast.Compare) or (isinstance(e, ast.Call) and chain(e.func) in ("len", "bool", "any", "all", "isinstance")):
+            return False
+        if not any(id(n) in self.raw_ids or _is_name(n, holders) for n in ast.walk(e)):
+            return False
+        return not self._clean_filter(e)
+
+    @staticmethod
+    def _defs_at(node) -> list[tuple[str, ast.AST | None, bool]]:
+        """(local, value or None, keeps-old-value) bound by the CFG node"""
+        a_ = node.ast
+        out = []
+
+        def target(t, v):
+            if isinstance(t, ast.Name):
+                out.append((t.id, v, False))
+            elif isinstance(t, (ast.Tuple, ast.List)):
+                vs = v.elts if isinstance(v, (ast.Tuple, ast.List)) and len(v.elts) == len(t.elts) else [None] * len(t.elts)
+                for te, ve in zip(t.elts, vs):
+                    target(te.value if isinstance(te, ast.Starred) else te, ve)
+        if node.kind == "loop" and isinstance(a_, (ast.For, ast.AsyncFor)):
+            target(a_.target, None)
+        elif node.kind == "handler" and isinstance(a_, ast.ExceptHandler) and a_.name:
+            out.append((a_.name, None, False))
+        elif node.kind in ("stmt", "cond") and a_ is not None:
+            if isinstance(a_, ast.Assign):
+                for t in a_.targets:
+                    target(t, a_.value)
+            elif isinstance(a_, ast.AnnAssign) and a_.value is not None:
+                target(a_.target, a_.value)
+            elif isinstance(a_, ast.AugAssign) and isinstance(a_.target, ast.Name):
+                out.append((a_.target.id, a_.value, True))
+            elif isinstance(a_, (ast.With, ast.AsyncWith)):
+                for i in a_.items:
+                    if i.optional_vars is not None:
+                        target(i.optional_vars, None)
+            if not isinstance(a_, (ast.With, ast.AsyncWith, ast.For, ast.AsyncFor, ast.While, ast.If, ast.Try)):
+                for n in walk_no_nested(a_):
+                    if isinstance(n, ast.NamedExpr):
+                        out.append((n.target.id, n.value, False))
+                    elif isinstance(n, ast.Call) and isinstance(n.func, ast.Attribute) and isinstance(n.func.value, ast.Name) \
+                            and n.func.attr in ("append", "add", "extend", "insert", "update"):
+                        out += [(n.func.value.id, a2, True) for a2 in n.args]       # x.extend(cache): x holds cached members too
+        return out
+
+    def _in_place(self, held, ret: ast.Return) -> None:
+        """a returned cache entry that is pruned in place (x.remove(..) / del x[..] / x[:] = ..) is a filter this analysis cannot follow"""
+        if self.kind != "list":
+            return
+        for n in walk_no_nested(self.fi.node):
+            hit = (isinstance(n, ast.Call) and isinstance(n.func, ast.Attribute) and n.func.attr in ("remove", "pop", "clear", "discard", "difference_update",
+                                                                                                    "intersection_update") and _is_name(n.func.value, held)) \
+                or (isinstance(n, (ast.Delete, ast.Assign)) and any(isinstance(t, ast.Subscript) and _is_name(t.value, held) for t in n.targets))
+            if hit:
+                raise AnalysisError(f"undecided: {self.fi.qualname} prunes the cached {self.index} entry in place (`{norm(n)[:60]}`) before `{norm(ret)[:40]}`; "
+                                    "in-place filters are not followed")
+
+    def _returns(self) -> None:
+        """
+        Path search over (CFG node, locals that hold the still unvalidated cached value): a state dies on an edge that establishes the
+        wanted fact about one of the holders (or that the value is None / falsy), and when the last holder is re-assigned from a clean
+        source; `b = a` makes b a further holder.  Reaching `return <holder>` is a path that returns the cache entry unvalidated.
+        """
+        fi, cfg = self.fi, self.cfg
+        for r in [n for n in walk_no_nested(fi.node) if isinstance(n, ast.Return) and n.value is not None]:
+            if any(id(p) in self.raw_ids or (self.kind == "list" and id(_unwrap(p)) in self.raw_ids) for p in _value_positions(r.value)):
+                self.problems.append(f"`{norm(r)[:80]}` returns the cache entry itself")
+        origins = [(n, frozenset(), f"`{norm(enclosing_stmt(raw))[:80]}`") for raw in self.raws for n in cfg.nodes_for(raw)]
+        for name, st, msg in self.loop_events:      # a loop over the cached list that keeps members without the required checks
+            origins += [(n, frozenset({name}), msg) for n in cfg.nodes_for(st)]
+        wanted = self.required(self, None, None) if self.kind == "elem" else [("", None)]
+        for label, pred in wanted:
+            bad = set()
+            seen = set()
+            todo = list(origins)
+            origin_nodes = {id(n) for n, _, _ in origins}
+            while todo:
+                n, held, src = todo.pop()
+                if (n.id, held) in seen:
+                    continue
+                seen.add((n.id, held))
+                if isinstance(n.ast, ast.Return) and n.kind == "stmt":
+                    if n.ast.value is not None:
+                        for p in _value_positions(n.ast.value):
+                            q = _unwrap(p) if self.kind == "list" else strip_cast(p)
+                            if not (_is_name(q, held) or (self.kind == "list" and self._carried_by(q, held))):
+                                continue
+                            cf = expr_context_facts(p)
+                            if any(self._miss_fact(f, held) or (pred is not None and pred(f, held)) for f in cf):
+                                continue
+                            self._in_place(held, n.ast)
+                            bad.add((norm(n.ast)[:60], src))
+                    continue
+                for name, v, keeps in self._defs_at(n):
+                    if self._carried_by(v, held, pred):
+                        held = held | {name}
+                    elif not keeps:
+                        held = held - {name}
+                if not held:
+                    continue
+                for v, lab in n.succ:
+                    if lab == "exc":
+                        continue
+                    if n.kind == "cond" and lab in (True, False):
+                        f = fact_of(n.ast, lab)
+                        if self._miss_fact(f, held) or (pred is not None and pred(f, held)):
+                            continue
+                    todo.append((v, held, src))
+            for ret, src in sorted(bad):
+                self.problems.append(f"a path from the cache read ({src[:120]}) reaches `{ret}`" +
+                                     (f" without establishing {label}" if label else " with the unvalidated cached list"))
+            if not bad and label and seen:
+                self.validated.append(f"every path returning the cached value establishes {label}")
+
+
+def _ip_required(flow: _ReaderFlow, _group, _facts):
+    """reverse_ip_lookup (address -> Peer): the cached peer is still verified and still uses the address."""
+    fi = flow.fi
+
+    def still_verified(f, held):
+        return f.op == "in" and f.pos and _is_name(f.left, held) and chain(_unwrap(f.right)) == "self.verified_peers"
+
+    def still_uses(f, held):
+        if not (f.op == "in" and f.pos and any(same_resolved(fi, f.left, k) for k in flow.keys)):
+            return False
+        return _resolves_to(fi, _unwrap(f.right), lambda x: isinstance(_unwrap(x), ast.Call)
+                            and any(chain(_unwrap(x).func) == f"{g}.addresses.values" for g in held))
+    return [("`<cached> in self.verified_peers`", still_verified), ("`<key> in <cached>.addresses.values()`", still_uses)]
+
+
+def _service_required(flow: _ReaderFlow, e: str, facts) -> list[str]:
+    """reverse_service_lookup (service -> [Peer]): each kept peer is verified and still advertises the service."""
+    fi = flow.fi
+
+    def services_of(x):
+        x = _unwrap(x)
+        if isinstance(x, ast.Call) and chain(x.func) == "self.services_per_peer.get":
+            return _key_bin_of(fi, arg(x, 0, "key"), e)
+        if isinstance(x, ast.Subscript) and chain(x.value) == "self.services_per_peer":
+            return _key_bin_of(fi, x.slice, e)
+        if isinstance(x, ast.Call) and chain(x.func) == "self.get_services_for_peer":
+            return _is_name(arg(x, 0, "peer"), e)
+        return False
+    missing = []
+    if not any(f.op == "in" and f.pos and _is_name(f.left, e) and chain(_unwrap(f.right)) == "self.verified_peers" for f in facts):
+        missing.append("that the peer is in self.verified_peers")
+    if not any(f.op == "in" and f.pos and any(same_resolved(fi, f.left, k) for k in flow.keys) and _resolves_to(fi, f.right, services_of) for f in facts):
+        missing.append("that the peer still advertises the service (services_per_peer)")
+    return missing
+
+
+def _intro_required(flow: _ReaderFlow, e: str, facts) -> list[str]:
+    """reverse_intro_lookup (Peer -> [address]): each kept address is still known and still introduced by that peer."""
+    fi = flow.fi
+
+    def entry_of(x):           # self._all_addresses[e] / self._all_addresses.get(e)
+        x = strip_cast(x)
+        if isinstance(x, ast.Subscript) and chain(x.value) == "self._all_addresses":
+            return _is_name(x.slice, e)
+        if isinstance(x, ast.Call) and chain(x.func) == "self._all_addresses.get":
+            return _is_name(arg(x, 0, "key"), e)
+        return False
+
+    def introducer(x):
+        x = strip_cast(x)
+        if isinstance(x, ast.Attribute) and x.attr == "introduced_by":
+            return _resolves_to(fi, x.value, entry_of)
+        if isinstance(x, ast.Subscript) and const_value(x.slice) == 0:
+            return _resolves_to(fi, x.value, entry_of)
+        if isinstance(x, ast.Name):     # intro_peer, service, new_style = self._all_addresses[e]
+            defs = local_defs(fi, x.id)
+            return bool(defs) and all(v is not None and idx == 0 and entry_of(v) for _, v, idx in defs)
+        return False
+
+    def introducer_fact(f):
+        if not (f.op == "eq" and f.pos):
+            return False
+        for a, b in ((f.left, f.right), (f.right, f.left)):
+            if (introducer(a) or _resolves_to(fi, a, introducer)) and any(_key_bin_of(fi, b, chain(k) or "?") for k in flow.keys):
+                return True
+        return False
+
+    def known_fact(f):
+        if f.op == "in" and f.pos and _is_name(f.left, e) and chain(_unwrap(f.right)) in ("self._all_addresses", "self._all_addresses.keys()"):
+            return True
+        if (f.op == "is" and not f.pos and const_value(f.right) is None) or (f.op == "truthy" and f.pos):
+            return _resolves_to(fi, f.left, lambda x: isinstance(x, ast.Call) and entry_of(x))
+        return False
+    missing = []
+    if not any(known_fact(f) for f in facts):
+        missing.append("that the address is still in self._all_addresses")
+    if not any(introducer_fact(f) for f in facts):
+        missing.append("that the address is still introduced by this peer (introduced_by == the peer's key)")
+    return missing
+
+
+def _private_to_class(ctx: Ctx, net, fi: FuncInfo) -> bool:
+    """a private method of Network that is only called from Network's own methods"""
+    if not fi.name.startswith("_") or fi.name.startswith("__"):
+        return False
+    sites = list(ctx.repo.callers_of_name(fi.name))
+    return bool(sites) and all(caller is not None and caller.cls is net for _m, caller, _c in sites)
+
+
+_READER_SPEC = {
+    "reverse_ip_lookup": ("get_verified_by_address", "elem", _ip_required,
+                          "the cached peer is returned without checking that it is still verified and still uses the address"),
+    "reverse_intro_lookup": ("get_introductions_from", "list", _intro_required,
+                             "the cached address list is returned without checking the addresses are still known and introduced by that peer"),
+    "reverse_service_lookup": ("get_peers_for_service", "list", _service_required,
+                               "cached per-service list returned without filtering by verified_peers and services_per_peer"),
+}
+
+
 def reader_validation(ctx: Ctx) -> dict[str, tuple[bool, str]]:
     """index -> (every reader validates the cached value against the authoritative collection, explanation)."""
     net = ctx.repo.cls("Network", NW)
     out = {}
-    # reverse_ip_lookup: get_verified_by_address
-    f = net.methods["get_verified_by_address"]
-    cfg = ctx.cfg(f)
-    ok = False
-    why = "the cached peer is returned without checking that it is still verified and still uses the address"
-    pops = [c for c in calls(f, ["self.reverse_ip_lookup.pop", "self.reverse_ip_lookup.get"])]
-    if pops:
-        st = enclosing_stmt(pops[0])
-        var = st.targets[0].id if isinstance(st, ast.Assign) and isinstance(st.targets[0], ast.Name) else None
-        # a statement that resets var to None under (var not in verified_peers or address not in var.addresses.values())
-        for s in walk_no_nested(f.node):
-            if isinstance(s, ast.Assign) and chain(s.targets[0]) == var and const_value(s.value) is None:
-                test = next((a.test for a in ancestors(s) if isinstance(a, ast.If)), None)
-                if test is not None and mentions(test, "self.verified_peers") and f"{var}.addresses" in norm(test) and f.params()[1] in norm(test):
-                    txt = norm(test)
-                    if f"{var} not in self.verified_peers" in txt and f"{f.params()[1]} not in {var}.addresses.values()" in txt and " or " in txt:
-                        # the reset precedes every use of the cached value as result
-                        ok = True
-                        why = "cached peer dropped unless it is in verified_peers and still has the address"
-    out["reverse_ip_lookup"] = (ok, why)
-    # reverse_intro_lookup: get_introductions_from
-    f = net.methods["get_introductions_from"]
-    ok = False
-    why = "the cached address list is returned without checking the addresses are still known and introduced by that peer"
-    for comp in [n for n in ast.walk(f.node) if isinstance(n, ast.ListComp)]:
-        it = comp.generators[0].iter
-        if isinstance(it, ast.Name):
-            d = [x for x in local_defs(f, it.id) if x[1] is not None and mentions(x[1], "self.reverse_intro_lookup")]
-            conds = " and ".join(norm(c) for c in comp.generators[0].ifs)
-            tv = norm(comp.generators[0].target)
-            if d and f"{tv} in self._all_addresses" in conds and f"self._all_addresses[{tv}].introduced_by ==" in conds:
-                ok = True
-                why = "cached addresses filtered by membership in _all_addresses and by their introducer"
-    # every return of a cached list goes through that filter: the function must not return the raw cache hit
-    rets = [r for r in walk_no_nested(f.node) if isinstance(r, ast.Return)]
-    for r in rets:
-        if isinstance(r.value, ast.Name):
-            defs = local_defs(f, r.value.id)
-            raw = [d for d in defs if d[1] is not None and isinstance(strip_cast(d[1]), ast.Call) and chain(strip_cast(d[1]).func) == "self.reverse_intro_lookup.get"]
-            if raw and ok:
-                cfg = ctx.cfg(f)
-                # the raw definition must be overwritten on every path to the return
-                others = [n for d in defs if d not in raw for n in cfg.nodes_for(d[0])]
-                rawn = [n for d in raw for n in cfg.nodes_for(d[0])]
-                for rn in cfg.nodes_for(r):
-                    reach = cfg.reach([v for x in rawn for v, lab in x.succ if lab != "exc"], cut_nodes=others, follow_exc=False)
-                    if rn in reach:
-                        ok = False
-                        why = "a path returns the raw cached list without validation"
-    out["reverse_intro_lookup"] = (ok, why)
-    # reverse_service_lookup: get_peers_for_service
-    f = net.methods["get_peers_for_service"]
-    ok = False
-    why = "cached per-service list returned without filtering by verified_peers and services_per_peer"
-    for comp in [n for n in ast.walk(f.node) if isinstance(n, ast.ListComp)]:
-        conds = " and ".join(norm(c) for c in comp.generators[0].ifs)
-        it = comp.generators[0].iter
-        d = single_def(f, it.id) if isinstance(it, ast.Name) else None
-        if d is not None and mentions(d[0], "self.reverse_service_lookup") and "in self.verified_peers" in conds and "self.services_per_peer.get(" in conds:
-            ok = True
-            why = "cached peers filtered by verified_peers and services_per_peer"
-    out["reverse_service_lookup"] = (ok, why)
+    for index, (reader, kind, required, dflt) in _READER_SPEC.items():
+        ctx.anchor(net.methods.get(reader), f"Network.{reader}")
+        # a private helper that hands a cache entry out as it is (e.g. "pop and re-insert on top") is not a reader of its own:
+        # its call sites are cache reads, and the callers must validate what they got
+        helpers: set[str] = set()
+        for _round in range(3):
+            problems, how, nreads, grew = [], [], 0, False
+            for fi in net.methods.values():
+                flow = _ReaderFlow(ctx, fi, index, kind, required, helpers).run()
+                if flow.problems and fi.name != reader and fi.name not in helpers and _private_to_class(ctx, net, fi):
+                    helpers.add(fi.name)
+                    grew = True
+                    continue
+                if fi.name in helpers:
+                    continue
+                nreads += len(flow.raws) if fi.name == reader else 0
+                problems += [f"{fi.name}: {p}" for p in flow.problems]
+                how += [f"{fi.name}: {v}" for v in flow.validated]
+            if not grew:
+                break
+        if problems:
+            out[index] = (False, dflt + " [" + "; ".join(dict.fromkeys(problems))[:300] + "]")
+        elif nreads == 0:
+            out[index] = (True, f"{reader} never reads the cache: every answer is recomputed")
+        else:
+            out[index] = (True, "; ".join(dict.fromkeys(how))[:300] or "no cached value reaches a return")
     out["verified_by_public_key_bin"] = (False, "plain dict read (get_verified_by_public_key_bin, lazy_wrapper): no validation possible")
     return out
 
@@ -212,8 +728,8 @@ def rule_matrix(ctx: Ctx) -> None:
         if fi.name in readers or fi.name == "__init__":
             continue
         for st, t in stores(fi, [f"self.{d}[]" for d in DERIVED if d != "verified_by_public_key_bin"]):
-            v = strip_cast(st.value) if isinstance(st, ast.Assign) else None
-            partial = isinstance(v, (ast.List, ast.Tuple)) and len(v.elts) >= 1
+            v = resolve(fi, st.value) if isinstance(st, ast.Assign) else None
+            partial = isinstance(v, (ast.List, ast.Tuple, ast.Set)) and len(v.elts) >= 1
             ctx.check(not partial, "coherence", fi, st, f"{fi.name}: no partial cache entry created",
                       f"{fi.name} creates the cache entry `{norm(st)}` from the one element it knows: after an eviction the cached list is incomplete")
     # every miss recomputes from the authoritative collection
@@ -224,54 +740,128 @@ def rule_matrix(ctx: Ctx) -> None:
         scans = [n for n in ast.walk(f.node) if isinstance(n, (ast.For, ast.comprehension)) and mentions(n.iter, auth)]
         ctx.check(bool(scans), "coherence", f, f.node, f"{name}: a cache miss scans {auth}", f"{name} does not recompute from {auth} on a cache miss")
     # readers do not change the answer: they only write their own cache
-    for name, index in (("get_verified_by_address", "reverse_ip_lookup"), ("get_introductions_from", "reverse_intro_lookup"),
-                        ("get_peers_for_service", "reverse_service_lookup"), ("get_verified_by_public_key_bin", None),
-                        ("get_services_for_peer", None), ("get_walkable_addresses", None), ("snapshot", None), ("is_new_style", None)):
+    for name in _QUERIES:
         f = net.methods[name]
         for fi2, coll, kind, node in sites:
             if fi2 is f:
                 ctx.check(False, "coherence", f, node, f"{name} is read-only", f"the query {name} mutates {coll}: asking changes the answer")
         ctx.instance("coherence", f.where, f"{name} does not mutate authoritative collections")
-    gw = net.methods["get_walkable_addresses"]
-    for c in calls(gw):
-        if call_name(c) == "add" and isinstance(c.func.value, ast.Name):
-            d = single_def(gw, c.func.value.id)
-            if d is not None and mentions(d[0], "self.services_per_peer") and not (isinstance(strip_cast(d[0]), ast.Call) and chain(strip_cast(d[0]).func) in ("set", "copy")):
-                ctx.check(False, "coherence", gw, c, "get_walkable_addresses works on a copy of the service set",
-                          "the query get_walkable_addresses adds the introduction service to the very set stored in services_per_peer "
-                          f"(`{norm(c)}` on an alias of self.services_per_peer[...]): asking changes who supports the service, and cached "
-                          "per-service lists disagree with a recomputation")
+    # ... also not through a local alias of a stored collection (services = self.services_per_peer.get(k, set()); services.add(x))
+    for name in _QUERIES:
+        f = net.methods[name]
+        for node, var, src in _alias_mutations(f):
+            ctx.check(False, "coherence", f, node, f"{name} works on a copy of the stored collection",
+                      f"the query {name} mutates the very object stored in the peer graph (`{norm(node)[:60]}` on `{var}`, an alias of `{norm(src)[:70]}`): "
+                      "asking changes who supports the service, and cached per-service lists disagree with a recomputation")
+
+
+def _is_coll(e: ast.AST, coll: str) -> bool:
+    return chain(_unwrap(e)) in (coll, coll + ".keys()")
+
+
+def _quantified(f, coll: str) -> str | None:
+    """'some-in' (an element is in coll) / 'none-in' (no element is in coll) when fact f says so, else None."""
+    if f.op == "in" and _is_coll(f.right, coll):
+        return "some-in" if f.pos else None
+    if f.op != "truthy" or not isinstance(f.left, ast.Call):
+        return None
+    c = f.left
+    name = chain(c.func)
+    if name in ("any", "all") and len(c.args) == 1 and isinstance(c.args[0], (ast.GeneratorExp, ast.ListComp, ast.SetComp)) \
+            and len(c.args[0].generators) == 1 and not c.args[0].generators[0].ifs:
+        elt = c.args[0].elt
+        if (name == "any") == f.pos:
+            # any(...) holds / all(...) fails: for SOME element elt is true (any) resp. false (all)
+            fs = _atoms_with_polarity(elt, name == "any")
+            return "some-in" if any(x.op == "in" and x.pos and _is_coll(x.right, coll) for x in fs) else None
+        # all(...) holds / any(...) fails: for EVERY element elt is true (all) resp. false (any)
+        fs = _atoms_with_polarity(elt, name == "all")
+        return "none-in" if any(x.op == "in" and not x.pos and _is_coll(x.right, coll) for x in fs) else None
+    if isinstance(c.func, ast.Attribute) and c.func.attr == "isdisjoint" and len(c.args) == 1 and (_is_coll(c.func.value, coll) or _is_coll(c.args[0], coll)):
+        return "none-in" if f.pos else "some-in"
+    return None
+
+
+def _grows_verified(net, fi: FuncInfo, depth: int = 3) -> bool:
+    if calls(fi, ["self.verified_peers.add", "self.verified_peers.update"]):
+        return True
+    if depth > 0:
+        for c in calls(fi):
+            ch = chain(c.func) or ""
+            t = net.methods.get(call_name(c)) if ch.startswith("self.") and ch.count(".") == 1 else None
+            if t is not None and t.name.startswith("_") and t.node is not fi.node and _grows_verified(net, t, depth - 1):
+                return True
+    return False
+
+
+def _verified_add_sites(ctx: Ctx, net, fi: FuncInfo, who: str | None, prefix: list, depth: int = 3):
+    """
+    (function, `self.verified_peers.add(..)` call, [(fact, name of the peer in that fact's function)]) for every way add_verified_peer
+    reaches an insertion - directly or through private helpers; the facts are those that dominate the call chain.
+    """
+    cfg = ctx.cfg(fi)
+    out = []
+    for c in calls(fi, ["self.verified_peers.add", "self.verified_peers.update"]):
+        out.append((fi, c, prefix + [(f, who) for f in facts_at(cfg, c)]))
+    if depth > 0:
+        for c in calls(fi):
+            ch = chain(c.func) or ""
+            t = net.methods.get(call_name(c)) if ch.startswith("self.") and ch.count(".") == 1 else None
+            if t is None or not t.name.startswith("_") or t.node is fi.node or not _grows_verified(net, t, depth - 1):
+                continue
+            who2 = None
+            tparams = t.params()[1:]
+            for i, a_ in enumerate(c.args):
+                if who is not None and _is_name(a_, who) and i < len(tparams):
+                    who2 = tparams[i]
+            for k in c.keywords:
+                if who is not None and k.arg and _is_name(k.value, who):
+                    who2 = k.arg
+            out += _verified_add_sites(ctx, net, t, who2, prefix + [(f, who) for f in facts_at(cfg, c)], depth - 1)
+    return out
+
+
+def _private_to(ctx: Ctx, net, fi: FuncInfo, owner: FuncInfo, depth: int = 3) -> bool:
+    """fi is a private Network helper whose every call site lies in `owner` (or in another such helper)"""
+    if fi is None or fi.cls is not net or not fi.name.startswith("_") or fi.name.startswith("__") or depth <= 0:
+        return False
+    sites = list(ctx.repo.callers_of_name(fi.name))
+    if not sites:
+        return False
+    for m, caller, c in sites:
+        if caller is None or caller.cls is not net:
+            return False
+        if caller.node is not owner.node and caller.node is not fi.node and not _private_to(ctx, net, caller, owner, depth - 1):
+            return False
+    return True
 
 
 def rule_blacklists(ctx: Ctx) -> None:
     net = ctx.repo.cls("Network", NW)
     av = net.methods["add_verified_peer"]
-    cfg = ctx.cfg(av)
-    adds = [c for c in calls(av, "self.verified_peers.add")]
-    ctx.floor("blacklists", len(adds), 2)
-    for c in adds:
-        fs = facts_at(cfg, c)
-        ok = any(f.op == "in" and not f.pos and norm(f.left) == f"{av.params()[1]}.mid" and chain(f.right) == "self.blacklist_mids" for f in fs)
-        ctx.check(ok, "blacklists", av, c, "verified_peers.add dominated by peer.mid not in blacklist_mids", "a blacklisted identity can become a verified peer",
-                  [str(f) for f in fs])
-    # the new-peer branch (no known address) requires all addresses outside the blacklist
-    for c in adds:
-        fs = facts_at(cfg, c)
-        known_addr = any(f.op == "truthy" and f.pos and isinstance(f.left, ast.Call) and chain(f.left.func) == "any"
-                         and "in self._all_addresses" in norm(f.left) and "not in" not in norm(f.left) for f in fs)
-        not_black = any(f.op == "truthy" and f.pos and isinstance(f.left, ast.Call) and chain(f.left.func) == "all"
-                        and "not in self.blacklist" in norm(f.left) for f in fs)
-        ctx.check(known_addr or not_black, "blacklists", av, c, "peer added only via a known address or with all addresses outside the blacklist",
-                  "a peer with a blacklisted address is added as a new verified peer")
+    peer = av.params()[1]
+    sites = _verified_add_sites(ctx, net, av, peer, [])
+    ctx.floor("blacklists", len(sites), 2)
+    for fi, c, fs in sites:
+        shown = [str(f) for f, _ in fs]
+        ok = any(f.op == "in" and not f.pos and who is not None and chain(strip_cast(f.left)) == f"{who}.mid" and chain(_unwrap(f.right)) == "self.blacklist_mids"
+                 for f, who in fs)
+        ctx.check(ok, "blacklists", fi, c, "verified_peers.add dominated by peer.mid not in blacklist_mids", "a blacklisted identity can become a verified peer", shown)
+        # the new-peer branch (no known address) requires all addresses outside the blacklist
+        known_addr = any(_quantified(f, "self._all_addresses") == "some-in" for f, _ in fs)
+        not_black = any(_quantified(f, "self.blacklist") == "none-in" for f, _ in fs)
+        ctx.check(known_addr or not_black, "blacklists", fi, c, "peer added only via a known address or with all addresses outside the blacklist",
+                  "a peer with a blacklisted address is added as a new verified peer", shown)
     for m, fi, a in ctx.repo.attribute_uses("verified_peers"):
         p = parent(a)
-        if isinstance(p, ast.Attribute) and p.attr in ("add", "update") and fi is not None and fi.qualname != "Network.add_verified_peer":
+        if isinstance(p, ast.Attribute) and p.attr in ("add", "update") and fi is not None and fi.qualname != "Network.add_verified_peer" \
+                and not _private_to(ctx, net, fi, av):
             ctx.check(False, "blacklists", fi, enclosing_stmt(a), "verified_peers grows only in add_verified_peer", "verified_peers is extended around the blacklist checks")
     da = net.methods["discover_address"]
     cfgd = ctx.cfg(da)
     for st, t in stores(da, "self._all_addresses[]"):
         fs = facts_at(cfgd, st)
-        ok = any(f.op == "in" and not f.pos and norm(f.left) == da.params()[2] and chain(f.right) == "self.blacklist" for f in fs)
+        ok = any(f.op == "in" and not f.pos and same_resolved(da, f.left, t.slice) and chain(_unwrap(f.right)) == "self.blacklist" for f in fs)
         ctx.check(ok, "blacklists", da, st, "discover_address stores only non-blacklisted addresses", "a blacklisted address becomes walkable", [str(f) for f in fs])
 
 
@@ -280,18 +870,124 @@ def rule_by_key(ctx: Ctx) -> None:
     for fi in net.methods.values():
         cfg = ctx.cfg(fi)
         for c in calls(fi, "self.verified_peers.add"):
-            sts = [s for s, t in stores(fi, "self.verified_by_public_key_bin[]")]
-            sn = [n for s in sts for n in cfg.nodes_for(s)]
+            sts = [s for s, t in stores(fi, "self.verified_by_public_key_bin[]") if isinstance(s, ast.Assign)]
+            peer = arg(c, 0)
+            # the sibling store registers the same peer under that peer's key
+            good = [s for s in sts for t in s.targets if isinstance(t, ast.Subscript) and chain(t.value) == "self.verified_by_public_key_bin"
+                    and same_resolved(fi, s.value, peer) and chain(resolve(fi, peer)) is not None
+                    and (_key_bin_of(fi, t.slice, chain(strip_cast(peer)) or "?") or _key_bin_of(fi, t.slice, chain(resolve(fi, peer)) or "?"))]
+            sn = [n for s in good for n in cfg.nodes_for(s)]
             ok = bool(sn) and all(cfg.always_followed_by(n, sn) for n in cfg.nodes_for(c))
-            peer = norm(arg(c, 0))
-            ok = ok and any(norm(s.targets[0].slice) == f"{peer}.public_key.key_to_bin()" and norm(s.value) == peer for s in sts)
             ctx.check(ok, "by-key-index", fi, c, "verified_peers.add(p) always followed by verified_by_public_key_bin[p.key] = p",
                       "a peer is added to the verified set without its by-key index entry")
         for c in calls(fi, ["self.verified_peers.remove", "self.verified_peers.discard"]):
-            pops = [n for p in calls(fi, "self.verified_by_public_key_bin.pop") for n in cfg.nodes_for(p)]
-            ok = bool(pops) and all(cfg.always_followed_by(n, pops) for n in cfg.nodes_for(c))
+            peer = arg(c, 0)
+            who = {chain(strip_cast(peer)) or "?", chain(resolve(fi, peer)) or "?"}
+            pops = [n for p in calls(fi, "self.verified_by_public_key_bin.pop") if any(_key_bin_of(fi, arg(p, 0, "key"), w) for w in who) for n in cfg.nodes_for(p)]
+            pops += [n for s, t in stores(fi, "self.verified_by_public_key_bin[]") if isinstance(s, ast.Delete) and any(_key_bin_of(fi, t.slice, w) for w in who)
+                     for n in cfg.nodes_for(s)]
+
+            def absent(u, v, lab, who=who):     # `if key in self.verified_by_public_key_bin: del ...[key]`: nothing to delete on the other branch
+                if u.kind != "cond" or lab not in (True, False):
+                    return False
+                f = fact_of(u.ast, lab)
+                return f.op == "in" and not f.pos and chain(_unwrap(f.right)) == "self.verified_by_public_key_bin" and any(_key_bin_of(fi, f.left, w) for w in who)
+            ok = bool(pops) and all(cfg.exit not in cfg.reach([v for v, lab in n.succ if lab != "exc"], cut_nodes=pops, cut_edge=absent, follow_exc=False)
+                                    for n in cfg.nodes_for(c))
             ctx.check(ok, "by-key-index", fi, c, "verified_peers.remove(p) always followed by verified_by_public_key_bin.pop(p.key)",
                       "a peer is removed from the verified set but stays in the by-key index (it can never be added again)")
+
+
+def _scans_verified(ctx: Ctx, net, fi: FuncInfo, depth: int = 1) -> list:
+    """CFG nodes of fi that look at every verified peer (loop / comprehension over self.verified_peers, or a call of a Network method that does)."""
+    cfg = ctx.cfg(fi)
+
+    def src(x):
+        return _resolves_to(fi, _unwrap(x), lambda y: chain(_unwrap(y)) == "self.verified_peers")
+    nodes = []
+    for n in walk_no_nested(fi.node):
+        if isinstance(n, (ast.For, ast.AsyncFor)) and src(n.iter):
+            nodes += cfg.nodes_for(n)
+        elif isinstance(n, ast.comprehension) and src(n.iter):
+            nodes += cfg.nodes_for(parent(n))
+        elif isinstance(n, ast.Call) and depth > 0 and (chain(n.func) or "").startswith("self.") and (chain(n.func) or "").count(".") == 1:
+            t = net.methods.get(call_name(n))
+            if t is not None and t.node is not fi.node and _scans_verified(ctx, net, t, depth - 1):
+                nodes += cfg.nodes_for(n)
+    return nodes
+
+
+def rule_removal(ctx: Ctx) -> None:
+    """
+    "A removed peer is returned by no lookup": the two removers must reach the membership on every path.
+    remove_by_address(a) can only know that no verified peer uses `a` by looking at the verified peers: _all_addresses is NOT an index of
+    the verified peers' addresses (add_verified_peer merges new addresses into a known peer without registering them; remove_peer pops
+    addresses another peer may share), so a path that returns without scanning verified_peers leaves a peer with that address verified -
+    and every lookup keeps returning it.  remove_peer(p) must take p out of verified_peers unless p is known not to be in it.
+    """
+    net = ctx.repo.cls("Network", NW)
+    ra = net.methods["remove_by_address"]
+    cfg = ctx.cfg(ra)
+    scans = _scans_verified(ctx, net, ra)
+
+    def empty(u, v, lab):       # `if not self.verified_peers: return` - nothing to scan
+        if u.kind != "cond" or lab not in (True, False):
+            return False
+        f = fact_of(u.ast, lab)
+        return f.op == "truthy" and not f.pos and chain(_unwrap(f.left)) == "self.verified_peers"
+    ok = bool(scans) and cfg.exit not in cfg.reach(cut_nodes=scans, cut_edge=empty, follow_exc=False)
+    ctx.check(ok, "removal", ra, ra.node, "remove_by_address looks at every verified peer on every path",
+              "remove_by_address can return without looking at the verified peers (e.g. because the address is not a key of _all_addresses, which is "
+              "not an index of the verified peers' addresses): a verified peer that uses the address stays verified and is still returned by every lookup")
+    rp = net.methods["remove_peer"]
+    cfg = ctx.cfg(rp)
+    who = rp.params()[1]
+    rem = [n for c in calls(rp, ["self.verified_peers.remove", "self.verified_peers.discard"]) if _is_name(resolve(rp, arg(c, 0)), who) for n in cfg.nodes_for(c)]
+    rem += [n for fi2, coll, kind, node in mutation_sites(ctx) if fi2 is rp and coll == "verified_peers" and kind == "remove" and not isinstance(node, ast.Call)
+            for n in cfg.nodes_for(node)]
+
+    def absent(u, v, lab):
+        if u.kind != "cond" or lab not in (True, False):
+            return False
+        f = fact_of(u.ast, lab)
+        return f.op == "in" and not f.pos and _is_name(resolve(rp, f.left), who) and chain(_unwrap(f.right)) == "self.verified_peers"
+    ok = bool(rem) and cfg.exit not in cfg.reach(cut_nodes=rem, cut_edge=absent, follow_exc=False)
+    ctx.check(ok, "removal", rp, rp.node, "remove_peer takes the peer out of verified_peers on every path (unless it is not a member)",
+              "remove_peer can return while the peer is still in verified_peers: the removed peer is still returned by lookups")
+
+
+_WA_FIELDS = ("introduced_by", "services", "new_style")
+
+
+def _wa_args(fi: FuncInfo, v: ast.AST):
+    """(introduced_by, services, new_style) argument expressions of a WalkableAddress(...) construction, or None."""
+    v = resolve(fi, v)
+    if not (isinstance(v, ast.Call) and (chain(v.func) or "").split(".")[-1] == "WalkableAddress"):
+        return None
+    return tuple(arg(v, i, name) for i, name in enumerate(_WA_FIELDS))
+
+
+def _neutral_entry(fi: FuncInfo, v: ast.AST) -> bool:
+    """WalkableAddress(b"", None, False): names no introducer and no service"""
+    a_ = _wa_args(fi, v)
+    return a_ is not None and all(x is not None for x in a_) and const_value(resolve(fi, a_[0])) == b"" and const_value(resolve(fi, a_[1])) is None \
+        and const_value(resolve(fi, a_[2])) is False
+
+
+def _iteration_of(ctx: Ctx, fi: FuncInfo, node: ast.AST):
+    """(target, iterable, facts under which `node` is evaluated) for the innermost loop / comprehension around node, or None."""
+    cfg = ctx.cfg(fi)
+    for a_ in ancestors(node):
+        if isinstance(a_, (ast.ListComp, ast.SetComp, ast.GeneratorExp, ast.DictComp)):
+            g = a_.generators[-1]
+            fs = [f for g2 in a_.generators for c in g2.ifs for f in _atoms_with_polarity(c, True)]
+            # the surrounding statement's own guards are not about one element; they are reported to the caller as facts too
+            return g.target, g.iter, fs + expr_context_facts(node) + facts_at(cfg, enclosing_stmt(a_))
+        if isinstance(a_, (ast.For, ast.AsyncFor)):
+            return a_.target, a_.iter, facts_at(cfg, node)
+        if a_ is fi.node:
+            break
+    return None
 
 
 def rule_snapshot_codec(ctx: Ctx) -> None:
@@ -299,22 +995,27 @@ def rule_snapshot_codec(ctx: Ctx) -> None:
     sn, ld = net.methods["snapshot"], net.methods["load_snapshot"]
     packs = [c for c in calls(sn) if call_name(c) == "pack"]
     unpacks = [c for c in calls(ld) if call_name(c) == "unpack"]
-    ok = len(packs) == 1 and len(unpacks) == 1 and const_value(packs[0].args[0]) == const_value(unpacks[0].args[0]) == "address" \
-        and chain(packs[0].func) == chain(unpacks[0].func).replace("unpack", "pack")
+    ok = len(packs) == 1 and len(unpacks) == 1 and const_value(resolve(sn, arg(packs[0], 0))) == const_value(resolve(ld, arg(unpacks[0], 0))) == "address" \
+        and (rchain(sn, packs[0].func) or "?")[:-len("pack")] == (rchain(ld, unpacks[0].func) or "??")[:-len("unpack")]
     ctx.check(ok, "snapshot-codec", sn, sn.node, "snapshot packs and load_snapshot unpacks with the same packer ('address') of the same serializer",
               "snapshot and load_snapshot use different formats")
     if packs:
-        cfg = ctx.cfg(sn)
-        fs = facts_at(cfg, packs[0])
-        loop = next((a for a in ancestors(packs[0]) if isinstance(a, ast.For)), None)
-        ok = loop is not None and chain(loop.iter) == "self.verified_peers" and norm(arg(packs[0], 1)) == f"{norm(loop.target)}.address"
-        allowed = all((f.op == "truthy" and f.pos and norm(f.left).endswith(".address")) or
-                      (f.op == "eq" and not f.pos and const_value(f.right) == ("0.0.0.0", 0)) for f in fs)
+        it = _iteration_of(ctx, sn, packs[0])
+        ok = allowed = False
+        fs = []
+        if it is not None and isinstance(it[0], ast.Name):
+            tv, src, fs = it[0].id, it[1], it[2]
+
+            def is_addr(x):
+                return _resolves_to(sn, x, lambda y: chain(y) == f"{tv}.address")
+            ok = _resolves_to(sn, _unwrap(src), lambda y: chain(_unwrap(y)) == "self.verified_peers") and is_addr(arg(packs[0], 1))
+            allowed = all((f.op == "truthy" and f.pos and is_addr(f.left)) or
+                          (f.op == "eq" and not f.pos and ((const_value(f.right) == ("0.0.0.0", 0) and is_addr(f.left))
+                                                           or (const_value(f.left) == ("0.0.0.0", 0) and is_addr(f.right)))) for f in fs)
         ctx.check(ok and allowed, "snapshot-codec", sn, packs[0], "every verified peer's address is written, skipping only null addresses",
-                  "snapshot skips verified peers for a reason other than a null address")
-    sts = [s for s, t in stores(ld, "self._all_addresses[]")]
-    ok = bool(sts) and all(isinstance(s.value, ast.Call) and chain(s.value.func) == "WalkableAddress" and const_value(s.value.args[0]) == b""
-                           and const_value(s.value.args[1]) is None and const_value(s.value.args[2]) is False for s in sts)
+                  "snapshot skips verified peers for a reason other than a null address", [str(f) for f in fs])
+    sts = [s for s, t in stores(ld, "self._all_addresses[]") if isinstance(s, ast.Assign)]
+    ok = bool(sts) and all(_neutral_entry(ld, s.value) for s in sts)
     ctx.check(ok, "snapshot-codec", ld, ld.node, "load_snapshot inserts neutral WalkableAddress(b'', None, False) entries",
               "load_snapshot inserts addresses with a made-up introducer / service")
     ctx.check(not any(c for c in calls(ld) if chain(c.func) in ("self.verified_peers.add", "self.add_verified_peer")), "snapshot-codec", ld, ld.node,
@@ -340,22 +1041,166 @@ def rule_external_writers(ctx: Ctx) -> None:
     ctx.floor("external-writers", n, 4)
 
 
+def _peer_source(fi: FuncInfo, e: ast.AST) -> bool:
+    """the verified peers (optionally restricted to one service by the validated reader)"""
+    return _resolves_to(fi, e, lambda x: not isinstance(x, ast.Name) and (mentions(x, "self.verified_peers") or mentions(x, "self.get_peers_for_service")))
+
+
+def _addr_values(fi: FuncInfo, e: ast.AST, p: str) -> bool:
+    """e evaluates <p>.addresses.values() (every address of peer p)"""
+    return _resolves_to(fi, _unwrap(e), lambda x: isinstance(_unwrap(x), ast.Call) and chain(_unwrap(x).func) == f"{p}.addresses.values")
+
+
+def _every_iteration(cfg, loop: ast.For, nodes) -> bool:
+    """every iteration of `loop` that completes normally executes one of `nodes` (no continue / break / return / condition around it)"""
+    heads = cfg.nodes_for(loop)
+    nodes = list(nodes)
+    if not heads or not nodes:
+        return False
+    for h in heads:
+        first = [v for v, lab in h.succ if lab is True]
+        r = cfg.reach(first, cut_nodes=nodes, follow_exc=False)
+        if h in r or cfg.exit in r:
+            return False
+    return True
+
+
+def _exhaustive(cfg, loop: ast.For) -> bool:
+    """the loop is only left when its iterable is exhausted (no break / return out of the body)"""
+    for h in cfg.nodes_for(loop):
+        first = [v for v, lab in h.succ if lab is True]
+        after = [v for v, lab in h.succ if lab is False]
+        r = cfg.reach(first, cut_nodes=[h], follow_exc=False)
+        if cfg.exit in r or any(a_ in r for a_ in after):
+            return False
+    return True
+
+
+def _all_addresses_of(ctx: Ctx, fi: FuncInfo, e: ast.AST, depth: int = 3) -> tuple[bool, str]:
+    """Does e hold EVERY address (peer.addresses.values()) of every peer of the verified-peer source?"""
+    e = _unwrap(e)
+    if isinstance(e, (ast.ListComp, ast.SetComp, ast.GeneratorExp)):
+        gens = e.generators
+        if any(g.ifs for g in gens) or not isinstance(gens[0].target, ast.Name) or not _peer_source(fi, gens[0].iter):
+            return False, "a conditional / foreign comprehension, not every address of every verified peer"
+        p = gens[0].target.id
+        if len(gens) == 2 and isinstance(gens[1].target, ast.Name) and _addr_values(fi, gens[1].iter, p) and _is_name(e.elt, gens[1].target.id):
+            return True, f"every address of every peer (`{norm(e)[:70]}`)"
+        return False, f"built from `{norm(e.elt)[:40]}` per verified peer, not from all of {p}.addresses.values()"
+    if isinstance(e, ast.Call):
+        c = chain(e.func) or ""
+        inner = None
+        if c.endswith("chain.from_iterable") and len(e.args) == 1:
+            inner = e.args[0]
+        elif isinstance(e.func, ast.Attribute) and e.func.attr == "union" and len(e.args) == 1 and isinstance(e.args[0], ast.Starred):
+            inner = e.args[0].value
+        inner = _unwrap(inner) if inner is not None else None
+        if isinstance(inner, (ast.ListComp, ast.SetComp, ast.GeneratorExp)) and len(inner.generators) == 1 and not inner.generators[0].ifs \
+                and isinstance(inner.generators[0].target, ast.Name) and _peer_source(fi, inner.generators[0].iter) \
+                and _addr_values(fi, inner.elt, inner.generators[0].target.id):
+            return True, f"every address of every peer (`{norm(e)[:70]}`)"
+        return False, "not recognisably every address of every verified peer"
+    if isinstance(e, ast.Name) and e.id not in fi.params() and depth > 0:
+        defs = [(st, v) for st, v, idx in local_defs(fi, e.id) if not isinstance(st, ast.AugAssign)]
+        if not defs or any(v is None for _, v in defs):
+            return False, "not recognisably every address of every verified peer"
+        empty = [(st, v) for st, v in defs if (isinstance(strip_cast(v), (ast.List, ast.Set, ast.Tuple)) and not strip_cast(v).elts)
+                 or (isinstance(strip_cast(v), ast.Call) and chain(strip_cast(v).func) in ("set", "list") and not strip_cast(v).args)]
+        if len(empty) < len(defs):
+            res = [_all_addresses_of(ctx, fi, v, depth - 1) for _, v in defs]
+            bad = [r for r in res if not r[0]]
+            return (False, bad[0][1]) if bad else (True, res[0][1])
+        # accumulator: filled by a loop over the verified peers that adds all addresses of each peer in every iteration
+        cfg = ctx.cfg(fi)
+        s_ = e.id
+        for loop in [n for n in walk_no_nested(fi.node) if isinstance(n, (ast.For, ast.AsyncFor)) and isinstance(n.target, ast.Name) and _peer_source(fi, n.iter)]:
+            p = loop.target.id
+            adders = []
+            for n in [x for st in loop.body for x in walk_no_nested(st)]:
+                if isinstance(n, ast.Call) and isinstance(n.func, ast.Attribute) and _is_name(n.func.value, s_) and n.func.attr in ("extend", "update") \
+                        and len(n.args) == 1 and _addr_values(fi, n.args[0], p):
+                    adders += cfg.nodes_for(n)
+                elif isinstance(n, ast.AugAssign) and _is_name(n.target, s_) and isinstance(n.op, (ast.Add, ast.BitOr)) and _addr_values(fi, n.value, p):
+                    adders += cfg.nodes_for(n)
+                elif isinstance(n, (ast.For, ast.AsyncFor)) and isinstance(n.target, ast.Name) and _addr_values(fi, n.iter, p):
+                    inner = [m for st in n.body for x in walk_no_nested(st) if isinstance(x, ast.Call) and isinstance(x.func, ast.Attribute)
+                             and _is_name(x.func.value, s_) and x.func.attr in ("append", "add") and len(x.args) == 1 and _is_name(x.args[0], n.target.id)
+                             for m in cfg.nodes_for(x)]
+                    if _every_iteration(cfg, n, inner) and _exhaustive(cfg, n):
+                        adders += cfg.nodes_for(n)
+            if _every_iteration(cfg, loop, adders) and _exhaustive(cfg, loop):
+                return True, f"filled with {p}.addresses.values() for every peer of `{norm(loop.iter)[:40]}`"
+        return False, "an accumulator that is not extended with all of peer.addresses.values() for every verified peer"
+    return False, "not recognisably every address of every verified peer"
+
+
+def _subtrahends(ctx: Ctx, fi: FuncInfo) -> list[tuple[ast.AST, ast.AST]]:
+    """(node, S) for every construct that computes `known addresses minus S`."""
+    def known(x):
+        return _resolves_to(fi, x, lambda y: not isinstance(y, ast.Name) and mentions(y, "self._all_addresses"))
+    out = []
+    for n in walk_no_nested(fi.node):
+        if isinstance(n, ast.BinOp) and isinstance(n.op, ast.Sub) and known(n.left):
+            out.append((n, n.right))
+        elif isinstance(n, ast.AugAssign) and isinstance(n.op, ast.Sub) and known(n.target):
+            out.append((n, n.value))
+        elif isinstance(n, ast.Call) and isinstance(n.func, ast.Attribute) and n.func.attr in ("difference", "difference_update") and len(n.args) == 1 \
+                and known(n.func.value):
+            out.append((n, n.args[0]))
+        elif isinstance(n, (ast.ListComp, ast.SetComp, ast.GeneratorExp)):
+            for i, g in enumerate(n.generators):
+                if isinstance(g.target, ast.Name) and known(g.iter):
+                    for f in [f for g2 in n.generators[i:] for c in g2.ifs for f in _atoms_with_polarity(c, True)]:
+                        if f.op == "in" and not f.pos and _is_name(f.left, g.target.id):
+                            out.append((n, f.right))
+        elif isinstance(n, (ast.For, ast.AsyncFor)) and isinstance(n.target, ast.Name) and known(n.iter):
+            cfg = ctx.cfg(fi)
+            seen = set()
+            for c in [x for st in n.body for x in walk_no_nested(st) if isinstance(x, ast.Call) and call_name(x) in ("append", "add")
+                      and len(x.args) == 1 and _is_name(x.args[0], n.target.id)]:
+                for f in facts_at(cfg, c):
+                    if f.op == "in" and not f.pos and _is_name(f.left, n.target.id) and id(f.atom) not in seen:
+                        seen.add(id(f.atom))
+                        out.append((n, f.right))
+    return out
+
+
+def _marks_dirty(ctx: Ctx, dd, f: FuncInfo, depth: int = 1) -> bool:
+    """every normally completing path of f executes `self.dirty = True` (itself, or by calling a method of the class that always does)"""
+    cfg = ctx.cfg(f)
+    sets = [x for s_ in walk_no_nested(f.node) if isinstance(s_, (ast.Assign, ast.AnnAssign)) and s_.value is not None
+            and any(chain(t) == "self.dirty" for t in (s_.targets if isinstance(s_, ast.Assign) else [s_.target])) and const_value(resolve(f, s_.value)) is True
+            for x in cfg.nodes_for(s_)]
+    if depth > 0:
+        for c in calls(f):
+            ch = chain(c.func) or ""
+            t = dd.methods.get(call_name(c)) if ch.startswith("self.") and ch.count(".") == 1 else None
+            if t is not None and t.node is not f.node and _marks_dirty(ctx, dd, t, depth - 1):
+                sets += cfg.nodes_for(c)
+    return bool(sets) and cfg.exit not in cfg.reach(cut_nodes=sets, follow_exc=False)
+
+
 def rule_walkable_and_peer(ctx: Ctx) -> None:
     repo = ctx.repo
     net = repo.cls("Network", NW)
     gw = net.methods["get_walkable_addresses"]
     # walkable = all known addresses minus EVERY address of every verified peer
-    ok = False
-    for l in [l for l in walk_no_nested(gw.node) if isinstance(l, ast.For)]:
-        src = resolve(gw, l.iter)
-        tv = norm(l.target)
-        if "self.verified_peers" in norm(src) or "get_peers_for_service" in norm(src):
-            for c in [c for c in ast.walk(l) if isinstance(c, ast.Call) and call_name(c) in ("extend", "update")]:
-                if norm(c.args[0]) == f"{tv}.addresses.values()":
-                    ok = True
-    sub = [n for n in ast.walk(gw.node) if isinstance(n, ast.BinOp) and isinstance(n.op, ast.Sub) and "self._all_addresses" in norm(n.left)]
-    ctx.check(ok and len(sub) == 1, "coherence", gw, gw.node, "walkable addresses = all known addresses minus peer.addresses.values() of every verified peer",
-              "get_walkable_addresses does not subtract every address of every verified peer (e.g. only the preferred one): an address of a verified peer is reported walkable")
+    subs = _subtrahends(ctx, gw)
+    if not subs:
+        collected = [n for n in walk_no_nested(gw.node) if (isinstance(n, (ast.ListComp, ast.SetComp, ast.GeneratorExp)) or
+                                                            (isinstance(n, ast.Name) and isinstance(n.ctx, ast.Store))) and _all_addresses_of(ctx, gw, n)[0]]
+        if collected:
+            raise AnalysisError("undecided: get_walkable_addresses collects the verified peers' addresses but removes them from the known "
+                                "addresses in a way this rule does not recognise (no `known - verified`, .difference(...) or `not in` filter)")
+        ctx.check(False, "coherence", gw, gw.node, "walkable addresses = all known addresses minus peer.addresses.values() of every verified peer",
+                  "get_walkable_addresses never removes the verified peers' addresses from the known addresses: addresses of verified peers are reported walkable")
+    if subs:
+        res = [(sub, *_all_addresses_of(ctx, gw, sub)) for node, sub in subs]
+        good = [r for r in res if r[1]]
+        sub, ok, how = good[0] if good else res[0]
+        ctx.check(ok, "coherence", gw, gw.node, "walkable addresses = all known addresses minus peer.addresses.values() of every verified peer",
+                  f"get_walkable_addresses does not subtract every address of every verified peer (e.g. only the preferred one): `{norm(sub)[:60]}` is "
+                  f"{how}; an address of a verified peer is reported walkable", [how])
     # Peer.address is cached behind DirtyDict.dirty: every mutator of the address dict must set the flag unconditionally
     dd = repo.cls("DirtyDict", "ipv8/peer.py")
     n = 0
@@ -364,9 +1209,7 @@ def rule_walkable_and_peer(ctx: Ctx) -> None:
         if f is None:
             continue
         n += 1
-        cfg = ctx.cfg(f)
-        sets = [x for s_ in walk_no_nested(f.node) if isinstance(s_, ast.Assign) and chain(s_.targets[0]) == "self.dirty" and const_value(s_.value) is True for x in cfg.nodes_for(s_)]
-        ok = bool(sets) and cfg.exit not in cfg.reach(cut_nodes=sets, follow_exc=False)
+        ok = _marks_dirty(ctx, dd, f)
         ctx.check(ok, "coherence", f, f.node, f"DirtyDict.{name} marks the address dict dirty on every path",
                   f"DirtyDict.{name} can change the addresses without setting `dirty`: Peer.address keeps returning the stale preferred address, so lookups by the advertised "
                   "address and the snapshot disagree with the verified peer's real addresses")
@@ -376,22 +1219,28 @@ def rule_walkable_and_peer(ctx: Ctx) -> None:
     ctx.check(ag is not None and "self._addresses.dirty" in " ".join(norm(x) for x in ast.walk(ag.node) if isinstance(x, ast.Attribute)) or True, "coherence", pa.where, "address",
               "Peer.address consults the dirty flag", "")
     # cache-exists tests use `is not None`: an empty cached list is a valid (complete) cache entry
-    for fname, idx in (("_add_to_service_caches", "reverse_service_lookup"), ("discover_services", "reverse_service_lookup"), ("discover_address", "reverse_intro_lookup")):
-        f = net.methods.get(fname)
-        if f is None:
-            continue
-        cfg = ctx.cfg(f)
-        for c in [c for c in calls(f) if call_name(c) in ("append", "remove") and isinstance(c.func.value, ast.Name)]:
-            d = single_def(f, c.func.value.id)
-            if d is None or f"self.{idx}" not in norm(d[0]):
-                continue
-            v = c.func.value.id
-            fs = facts_at(cfg, c)
-            truthy = any(f_.op == "truthy" and f_.pos and chain(f_.left) == v for f_ in fs)
-            notnone = any(f_.op == "is" and not f_.pos and chain(f_.left) == v and const_value(f_.right) is None for f_ in fs)
-            ctx.check(notnone and not truthy, "coherence", f, c, f"{fname}: cached list `{v}` is extended whenever the cache entry exists (is not None)",
-                      f"{fname} extends the cached {idx} list only when it is non-empty (truthiness test): an EMPTY cached list - which the reader treats as a complete "
-                      "answer - is never extended, so the lookup stays empty although the membership changed", [str(x) for x in fs])
+    n = 0
+    for f in net.methods.values():
+        for idx in ("reverse_service_lookup", "reverse_intro_lookup"):
+            cfg = None
+            for c in [c for c in calls(f) if call_name(c) in ("append", "remove", "extend", "insert") and isinstance(c.func, ast.Attribute)]:
+                recv = c.func.value
+                if not _entry_of_index(f, recv, idx, ctx):
+                    continue
+                v = norm(recv)
+                cfg = cfg or ctx.cfg(f)
+                n += 1
+                fs = facts_at(cfg, c)
+                truthy = any(f_.op == "truthy" and f_.pos and same_resolved(f, f_.left, recv) for f_ in fs)
+                notnone = any(f_.op == "is" and not f_.pos and same_resolved(f, f_.left, recv) and const_value(f_.right) is None for f_ in fs)
+                r_ = resolve(f, recv)
+                if isinstance(r_, ast.Subscript) and chain(r_.value) == f"self.{idx}":
+                    # self.<idx>[k].append(x) under `k in self.<idx>`: the entry exists
+                    notnone = notnone or any(f_.op == "in" and f_.pos and same_resolved(f, f_.left, r_.slice) and _is_coll(f_.right, f"self.{idx}") for f_ in fs)
+                ctx.check(notnone and not truthy, "coherence", f, c, f"{f.name}: cached list `{v}` is extended whenever the cache entry exists (is not None)",
+                          f"{f.name} extends the cached {idx} list only when it is non-empty (truthiness test): an EMPTY cached list - which the reader treats as a complete "
+                          "answer - is never extended, so the lookup stays empty although the membership changed", [str(x) for x in fs])
+    ctx.floor("coherence.cache-exists", n, 2)
 
 
 def run(ctx: Ctx) -> None:
@@ -399,6 +1248,7 @@ def run(ctx: Ctx) -> None:
     rule_matrix(ctx)
     rule_blacklists(ctx)
     rule_by_key(ctx)
+    rule_removal(ctx)
     rule_snapshot_codec(ctx)
     rule_external_writers(ctx)
     ctx.assume("Peer equality/hash is by public key (ipv8/peer.py); OrderedDict LRU eviction only drops entries (a miss recomputes: checked)")
@@ -435,6 +1285,12 @@ WITNESSES = [
     {"name": "remove_peer forgets by-key pop", "file": NW, "rule": "by-key-index",
      "old": "            self.verified_by_public_key_bin.pop(peer.public_key.key_to_bin(), None)\n            self.services_per_peer.pop",
      "new": "            self.services_per_peer.pop"},
+    {"name": "remove_by_address trusts _all_addresses to know the verified peers' addresses", "file": NW, "rule": "removal",
+     "old": "            self._all_addresses.pop(address, None)\n            # Note that the services_per_peer will never be 0",
+     "new": "            if address not in self._all_addresses:\n                return\n            self._all_addresses.pop(address, None)\n            # Note that the services_per_peer will never be 0"},
+    {"name": "remove_peer keeps peers without services", "file": NW, "rule": "removal",
+     "old": "            if peer in self.verified_peers:\n                self.verified_peers.remove(peer)",
+     "new": "            if peer in self.verified_peers and peer.public_key.key_to_bin() in self.services_per_peer:\n                self.verified_peers.remove(peer)"},
     {"name": "query mutates membership", "file": NW, "rule": "coherence",
      "old": "        with self.graph_lock:\n            return self.services_per_peer.get(peer.public_key.key_to_bin(), set())",
      "new": "        with self.graph_lock:\n            return self.services_per_peer.setdefault(peer.public_key.key_to_bin(), set())"},
